@@ -217,3 +217,20 @@ PROPS["C10"] = dict(
         R("C10.mbapp_reply_vs_tell", "swarms", "TestC10MbappBidi", 120, 6000, quick=dict(checks=120, shards=2, timeout=600)),
     ],
 )
+
+PROPS["C08"] = dict(
+    level="exploration",
+    technique="property-based testing (rapid) of hostile packet sequences executed in a child process per target (crash isolation); oracle: process survival plus continued service of a valid message; native fuzzing of single-packet entry points in thorough",
+    level_text="For every packet-facing layer the harness plays the remote peer: it generates structured mutations of valid packets (contradictory headers, hostile varints, truncations), random bytes and hostile operation sequences, runs each case against a fresh instance in a long-lived child process, and requires the process to survive and keep serving. Holds on everything generated.",
+    level_note="A panic in any goroutine kills the child and is attributed to the running case. QUIC stream frames are exercised through a raw QUIC peer (C08.quic). Absence of crashes is only shown for generated inputs.",
+    design_ref="4/C08",
+    assumptions=["an error return or a dropped packet is success; only process death or loss of service is a violation"],
+    subs=[
+        R("C08.fragswarm", "crash", "TestC08Frag", 800, 40000),
+        R("C08.mbapp", "crash", "TestC08Mbapp", 600, 30000),
+        R("C08.mux", "crash", "TestC08Mux", 600, 30000),
+        R("C08.parsers", "crash", "TestC08Parsers", 3000, 200000),
+        R("C08.p2pke_session_channel", "crash", "TestC08Session", 500, 25000),
+        R("C08.p2pkeswarm_multiswarm_dht", "crash", "TestC08SwarmsAndDHT", 500, 25000),
+    ],
+)
